@@ -8,6 +8,7 @@ package backup
 
 import (
 	"context"
+	"database/sql"
 	"encoding/json"
 	"errors"
 	"fmt"
@@ -49,12 +50,44 @@ type verifFaults struct {
 	ListBk        bool         `json:"list_bk"`
 	ReadBk        []verifFault `json:"read_bk"`
 	WriteDst      []verifFault `json:"write_dst"`
+	WriteMeta     bool         `json:"write_meta"`   // backup: writing <id>/metadata/arc.db fails
+	WriteCfg      bool         `json:"write_cfg"`    // backup: writing <id>/config/arc.toml fails
+	ReadMeta      bool         `json:"read_meta"`    // restore: reading <id>/metadata/arc.db fails
+	ReadCfg       bool         `json:"read_cfg"`     // restore: reading <id>/config/arc.toml fails
+	WriteSqlite   bool         `json:"write_sqlite"` // restore: the local SQLite path is not writable
+	WriteConfig   bool         `json:"write_config"` // restore: the local arc.toml path is not writable
+}
+
+type verifOpts struct {
+	Data bool `json:"data"`
+	Meta bool `json:"meta"`
+	Cfg  bool `json:"cfg"`
+}
+
+// verifLocal describes the local files next to a server: SqliteRows < 0 = no SQLite database
+// configured, otherwise a real SQLite database with that many rows (backup side) or, on the restore
+// side, SqliteOld = the bytes of the file currently at the SQLite path (nil = none).
+type verifLocal struct {
+	SqliteRows int     `json:"sqlite_rows"`
+	SqliteOld  *[]byte `json:"sqlite_old"`
+	Config     *[]byte `json:"config"` // nil = no arc.toml on disk
+}
+
+type verifEnv struct {
+	Sqlite     *[]byte `json:"sqlite"`
+	Config     *[]byte `json:"config"`
+	SqlitePrev *[]byte `json:"sqlite_prev"`
+	ConfigPrev *[]byte `json:"config_prev"`
 }
 
 type verifBackupCase struct {
-	ID     int         `json:"id"`
-	Files  []verifFile `json:"files"`
-	Faults verifFaults `json:"faults"`
+	ID          int         `json:"id"`
+	Files       []verifFile `json:"files"`
+	Faults      verifFaults `json:"faults"`
+	BackupOpts  verifOpts   `json:"backup_opts"`  // meta = IncludeMetadata, cfg = IncludeConfig
+	Local       verifLocal  `json:"local"`        // the server that is backed up
+	RestoreOpts verifOpts   `json:"restore_opts"` // RestoreData / RestoreMetadata / RestoreConfig
+	RLocal      verifLocal  `json:"restore_local"`
 }
 
 type verifProgress struct {
@@ -84,6 +117,8 @@ type verifManifest struct {
 	TotalSize  int64     `json:"total_size"`
 	Skipped    int64     `json:"skipped"`
 	DBs        []verifDB `json:"dbs"`
+	HasMeta    bool      `json:"has_meta"`
+	HasCfg     bool      `json:"has_cfg"`
 }
 
 type verifBackupObs struct {
@@ -99,6 +134,9 @@ type verifBackupObs struct {
 	RestoreErr string         `json:"restore_err"`
 	RProgress  verifProgress  `json:"rprogress"`
 	Dst        []verifFile    `json:"dst"`
+	SqliteSrc  *[]byte        `json:"sqlite_src"`    // the local SQLite database file that was backed up
+	SqliteSame bool           `json:"sqlite_stable"` // ... unchanged by the backup
+	Env        verifEnv       `json:"env"`           // local files of the restoring server afterwards
 }
 
 var errVerifInjected = errors.New("verif: injected storage fault")
@@ -111,6 +149,15 @@ type verifFaultBackend struct {
 	writeFail     map[string]*verifFault // keyed by ORIGINAL data path
 	manifestRead  bool
 	manifestWrite bool
+	metaWrite     bool
+	cfgWrite      bool
+	metaRead      bool
+	cfgRead       bool
+}
+
+func verifIsPart(path, name string) bool {
+	p := filepath.ToSlash(path)
+	return strings.HasPrefix(p, "backup-") && strings.HasSuffix(p, "/"+name) && strings.Count(p, "/") == 2
 }
 
 func verifOrig(p string) string {
@@ -165,6 +212,9 @@ func (b *verifFaultBackend) Read(ctx context.Context, path string) ([]byte, erro
 	if b.manifestRead && strings.HasSuffix(path, "/manifest.json") {
 		return nil, errVerifInjected
 	}
+	if (b.metaRead && verifIsPart(path, "metadata/arc.db")) || (b.cfgRead && verifIsPart(path, "config/arc.toml")) {
+		return nil, errVerifInjected
+	}
 	if f := verifDue(b.readFail, path); f != nil {
 		return nil, errVerifInjected
 	}
@@ -172,6 +222,9 @@ func (b *verifFaultBackend) Read(ctx context.Context, path string) ([]byte, erro
 }
 
 func (b *verifFaultBackend) WriteReader(ctx context.Context, path string, r io.Reader, size int64) error {
+	if b.metaWrite && verifIsPart(path, "metadata/arc.db") {
+		return errVerifInjected
+	}
 	if f := verifDue(b.writeFail, path); f != nil {
 		if f.K > 0 { // mid-stream: K bytes of the caller's reader are really consumed before the error
 			_, _ = io.CopyN(io.Discard, r, int64(f.K))
@@ -183,6 +236,9 @@ func (b *verifFaultBackend) WriteReader(ctx context.Context, path string, r io.R
 
 func (b *verifFaultBackend) Write(ctx context.Context, path string, data []byte) error {
 	if b.manifestWrite && strings.HasSuffix(path, "/manifest.json") {
+		return errVerifInjected
+	}
+	if b.cfgWrite && verifIsPart(path, "config/arc.toml") {
 		return errVerifInjected
 	}
 	if f := verifDue(b.writeFail, path); f != nil {
@@ -234,6 +290,35 @@ func verifReadTree(t *testing.T, root string, skip func(rel string) bool) []veri
 	return out
 }
 
+func verifReadOpt(path string) *[]byte {
+	data, err := os.ReadFile(path)
+	if err != nil {
+		return nil
+	}
+	if data == nil {
+		data = []byte{}
+	}
+	return &data
+}
+
+// verifMakeSqlite creates a real SQLite database (CreateBackup checkpoints it before copying).
+func verifMakeSqlite(path string, rows int) error {
+	db, err := sql.Open("sqlite3", path)
+	if err != nil {
+		return err
+	}
+	defer db.Close()
+	if _, err := db.Exec("PRAGMA page_size=512; CREATE TABLE verif_t (k INTEGER PRIMARY KEY, v TEXT)"); err != nil {
+		return err
+	}
+	for i := 0; i < rows; i++ {
+		if _, err := db.Exec("INSERT INTO verif_t (k, v) VALUES (?, ?)", i, fmt.Sprintf("row-%d", i*7919)); err != nil {
+			return err
+		}
+	}
+	return nil
+}
+
 func verifProg(p *Progress) verifProgress {
 	if p == nil {
 		return verifProgress{Status: "none"}
@@ -243,7 +328,8 @@ func verifProg(p *Progress) verifProgress {
 }
 
 func verifMan(m *Manifest) *verifManifest {
-	vm := &verifManifest{TotalFiles: m.TotalFiles, TotalSize: m.TotalSizeBytes, Skipped: m.SkippedFiles, DBs: []verifDB{}}
+	vm := &verifManifest{TotalFiles: m.TotalFiles, TotalSize: m.TotalSizeBytes, Skipped: m.SkippedFiles, DBs: []verifDB{},
+		HasMeta: m.HasMetadata, HasCfg: m.HasConfig}
 	for _, d := range m.Databases {
 		vd := verifDB{Name: d.Name, Files: d.FileCount, Size: d.SizeBytes, Meas: []verifMeas{}}
 		for _, ms := range d.Measurements {
@@ -299,12 +385,34 @@ func TestVerifBackup(t *testing.T) {
 			return fail(err)
 		}
 		src := &verifFaultBackend{Backend: srcLocal, listFail: c.Faults.ListSrc, readFail: verifSet(c.Faults.ReadSrc)}
-		m1, err := NewManager(&ManagerConfig{DataStorage: src, BackupPath: bkDir, Logger: logger})
+		localDir := filepath.Join(caseDir, "local")
+		if err := os.MkdirAll(localDir, 0o755); err != nil {
+			return fail(err)
+		}
+		sqlitePath, configPath := "", filepath.Join(localDir, "arc.toml")
+		if c.Local.SqliteRows >= 0 {
+			sqlitePath = filepath.Join(localDir, "arc.db")
+			if err := verifMakeSqlite(sqlitePath, c.Local.SqliteRows); err != nil {
+				return fail(err)
+			}
+			o.SqliteSrc = verifReadOpt(sqlitePath)
+		}
+		if c.Local.Config != nil {
+			if err := os.WriteFile(configPath, *c.Local.Config, 0o600); err != nil {
+				return fail(err)
+			}
+		}
+		m1, err := NewManager(&ManagerConfig{DataStorage: src, BackupPath: bkDir, SQLiteDBPath: sqlitePath, ConfigPath: configPath, Logger: logger})
 		if err != nil {
 			return fail(err)
 		}
-		m1.backupStorage = &verifFaultBackend{Backend: m1.backupStorage, writeFail: verifSet(c.Faults.WriteBk), manifestWrite: c.Faults.WriteManifest}
-		res, berr := m1.CreateBackup(ctx, BackupOptions{})
+		m1.backupStorage = &verifFaultBackend{Backend: m1.backupStorage, writeFail: verifSet(c.Faults.WriteBk), manifestWrite: c.Faults.WriteManifest,
+			metaWrite: c.Faults.WriteMeta, cfgWrite: c.Faults.WriteCfg}
+		res, berr := m1.CreateBackup(ctx, BackupOptions{IncludeMetadata: c.BackupOpts.Meta, IncludeConfig: c.BackupOpts.Cfg})
+		if sqlitePath != "" {
+			after := verifReadOpt(sqlitePath)
+			o.SqliteSame = after != nil && o.SqliteSrc != nil && string(*after) == string(*o.SqliteSrc)
+		}
 		o.BProgress = verifProg(m1.GetProgress())
 		if p := m1.GetProgress(); p != nil {
 			o.BackupID = p.BackupID
@@ -333,13 +441,35 @@ func TestVerifBackup(t *testing.T) {
 			return fail(err)
 		}
 		dst := &verifFaultBackend{Backend: dstLocal, writeFail: verifSet(c.Faults.WriteDst)}
-		m2, err := NewManager(&ManagerConfig{DataStorage: dst, BackupPath: bkDir, Logger: logger})
+		rlocal := filepath.Join(caseDir, "rlocal")
+		if err := os.MkdirAll(rlocal, 0o755); err != nil {
+			return fail(err)
+		}
+		rSqlite, rConfig := filepath.Join(rlocal, "arc.db"), filepath.Join(rlocal, "arc.toml")
+		if c.Faults.WriteSqlite { // a path whose directory does not exist: os.WriteFile fails
+			rSqlite = filepath.Join(rlocal, "missing-dir-a", "arc.db")
+		} else if c.RLocal.SqliteOld != nil {
+			if err := os.WriteFile(rSqlite, *c.RLocal.SqliteOld, 0o600); err != nil {
+				return fail(err)
+			}
+		}
+		if c.Faults.WriteConfig {
+			rConfig = filepath.Join(rlocal, "missing-dir-b", "arc.toml")
+		} else if c.RLocal.Config != nil {
+			if err := os.WriteFile(rConfig, *c.RLocal.Config, 0o600); err != nil {
+				return fail(err)
+			}
+		}
+		m2, err := NewManager(&ManagerConfig{DataStorage: dst, BackupPath: bkDir, SQLiteDBPath: rSqlite, ConfigPath: rConfig, Logger: logger})
 		if err != nil {
 			return fail(err)
 		}
 		m2.backupStorage = &verifFaultBackend{Backend: m2.backupStorage, listFail: c.Faults.ListBk,
-			readFail: verifSet(c.Faults.ReadBk), manifestRead: c.Faults.ReadManifest}
-		_, rerr := m2.RestoreBackup(ctx, RestoreOptions{BackupID: o.BackupID, RestoreData: true})
+			readFail: verifSet(c.Faults.ReadBk), manifestRead: c.Faults.ReadManifest, metaRead: c.Faults.ReadMeta, cfgRead: c.Faults.ReadCfg}
+		_, rerr := m2.RestoreBackup(ctx, RestoreOptions{BackupID: o.BackupID, RestoreData: c.RestoreOpts.Data,
+			RestoreMetadata: c.RestoreOpts.Meta, RestoreConfig: c.RestoreOpts.Cfg})
+		o.Env = verifEnv{Sqlite: verifReadOpt(rSqlite), Config: verifReadOpt(rConfig),
+			SqlitePrev: verifReadOpt(rSqlite + ".before-restore"), ConfigPrev: verifReadOpt(rConfig + ".before-restore")}
 		o.RProgress = verifProg(m2.GetProgress())
 		if rerr != nil {
 			o.RestoreErr = rerr.Error()
